@@ -28,6 +28,7 @@ ARTICULATIONS = [
     "falloff",
     "plop",
     "scoop",
+    "soft-accent",
     "spiccato",
     "staccatissimo",
     "staccato",
